@@ -205,6 +205,24 @@ def map_failure(d, meta, gen_lines, gen_name):
     return fn, ghost_fn, label, where
 
 
+def auto_label(d, gen_lines, gen_name):
+    """Unlabelled clause: name it after its own text (first line of the failing clause)."""
+    spans = [s for s in d.get("spans", []) if s.get("file_name", "").endswith(gen_name) and s.get("is_primary")]
+    if not spans:
+        return ""
+    s0 = spans[0]
+    ln = s0["line_start"]
+    if not (1 <= ln <= len(gen_lines)):
+        return ""
+    line = gen_lines[ln - 1]
+    txt = line[max(0, s0.get("column_start", 1) - 1):] if s0["line_start"] == s0["line_end"] else line
+    if s0["line_start"] == s0["line_end"] and s0.get("column_end"):
+        txt = line[max(0, s0["column_start"] - 1):s0["column_end"] - 1]
+    txt = txt.split("//")[0]
+    slug = re.sub(r"[^A-Za-z0-9_]+", "-", txt).strip("-")[:60].strip("-")
+    return (":" + slug) if slug else ""
+
+
 def msg_kind(msg):
     for k, v in (("index in bounds", "index"), ("postcondition", "post"), ("precondition", "pre"), ("invariant", "inv"),
                  ("assertion", "assert"), ("overflow", "overflow"), ("division", "div0"),
@@ -357,7 +375,7 @@ def run_unit(unit, repo=REPO, tier="quick", probe=True, rlimit=None, keep_log=Tr
     for d in errs:
         fn, ghost_fn, label, where = map_failure(d, meta, gen_lines, gen_name)
         fname = fn["qualified"] if fn else (ghost_fn or "?")
-        lab = label or ("body:" + msg_kind(d["message"]))
+        lab = label or ("body:" + msg_kind(d["message"]) + auto_label(d, gen_lines, gen_name))
         res.failures.append({
             "function": fname,
             "extracted": fn is not None,
